@@ -77,7 +77,7 @@ def check_template(ctx, t, sweep=True):
                 )
                 break
         for f in got:
-            if f.split("/", 1)[1] not in R["counts"]:
+            if f.split("/", 1)[1] not in R["counts"] and f.split("/", 1)[1] not in R.get("uncounted", ()):
                 ctx.violation("C04:unexpected-node", f"{runner}: {f} executed {got[f]} times but never runs in the sequential loop", case)
         for run, nsteps in monitors.steps_per_run(o.rec).items():
             ctx.obs["cap_checked_runs"] += 1
@@ -152,6 +152,7 @@ def run(ctx):
             lambda: loops.signal_loop(N, 0, "counter"),
             lambda: loops.signal_loop(N, 1, "chat"),
             lambda: loops.nested_loop(N, 0, 1, "route", 1),
+            lambda: loops.two_acc_loop(N, 0),
         ):
             if ctx.shard[0] != sysn % ctx.shard[1]:
                 sysn += 1
